@@ -216,6 +216,29 @@ class SMap:
         return f"SMap({self.desc})"
 
 
+class GList:
+    """List being built by appends inside a symbolic loop: a specified prefix (sequence view) plus the items appended
+    on the current path since the loop head."""
+    __slots__ = ("prefix", "appended", "oid")
+
+    def __init__(self, prefix, appended=None):
+        self.prefix = prefix
+        self.appended = list(appended or [])
+        _oid[0] += 1
+        self.oid = _oid[0]
+
+    def __repr__(self):
+        return f"GList(prefix n={self.prefix.n}, +{len(self.appended)})"
+
+
+class Poison:
+    """A local variable the enclosing loop keeps rebinding, as seen by a closure that is called later."""
+    __slots__ = ("name",)
+
+    def __init__(self, name):
+        self.name = name
+
+
 class SDict:
     """Mutable dict with symbolic string keys and real values: key set and value map as z3 arrays (functional updates)."""
     __slots__ = ("keys", "vals", "oid")
